@@ -1000,7 +1000,7 @@ class Interp:
         # logging calls are dropped (DESIGN 2.1 step 2)
         f = node.func
         if isinstance(f, ast.Attribute) and isinstance(f.value, ast.Name) and f.value.id in ("_LOGGER", "logger"):
-            self.note_log_args(node, fr)
+            self.eval_log_call(node, fr)
             return NONE
         if isinstance(f, ast.Name) and f.id == "super" and not node.args:
             sv = fr.locals.get("self", fr.locals.get("cls"))
@@ -1059,6 +1059,73 @@ class Interp:
             else:
                 kwargs[kw.arg] = self.ev(kw.value, fr)
         return self.call(fv, args, kwargs, node)
+
+    def eval_log_call(self, node, fr):
+        """a logging call: Python evaluates the arguments (their raise points and effects are real); the logging module then
+        may or may not format them (it depends on the configured level), i.e. may call __str__/__repr__ of repository objects"""
+        vals = []
+        for a in list(node.args) + [k.value for k in node.keywords]:
+            if isinstance(a, ast.Constant):
+                continue
+            try:
+                vals.append(self.ev(a, fr))
+            except Unsupported:
+                self.path.assumption(f"log-argument-not-evaluated {fr.func or '?'}: {ast.unparse(a)}")
+        for v in vals:
+            try:
+                v = self.resolve(v)
+            except Unsupported:
+                continue
+            if not (isinstance(v, VRef) and self.hobj(v).kind == "inst" and self.hobj(v).cls is not None):
+                continue
+            cls = self.hobj(v).cls
+            for meth in ("__str__", "__repr__"):
+                k, fnode = cls.find_method(meth)
+                if fnode is None:
+                    continue
+                if self.syntactically_pure(cls, meth, set()):
+                    break
+                # formatting this argument has effects: both behaviours of the logging module are explored
+                if self.path.choose(2, "log_format") == 1:
+                    self.call(self.getattr_(v, meth), [], {})
+                break
+
+    def syntactically_pure(self, cls, meth, seen, depth=0):
+        """conservative scan: the method (and the repository methods / properties of self it uses) assigns only local names and
+        calls no mutating container method"""
+        key = (cls.qualname, meth)
+        if key in seen:
+            return True
+        seen.add(key)
+        if depth > 6:
+            return False
+        k, fnode = cls.find_method(meth)
+        if fnode is None:
+            return True         # not a repository method (builtin / library / plain attribute)
+        if not isinstance(fnode, (ast.FunctionDef, ast.AsyncFunctionDef)):
+            return False
+        for n in ast.walk(fnode):
+            if isinstance(n, (ast.AugAssign, ast.Delete, ast.Global, ast.Nonlocal, ast.Await, ast.Yield, ast.YieldFrom)):
+                if isinstance(n, ast.AugAssign) and isinstance(n.target, ast.Name):
+                    continue
+                return False
+            if isinstance(n, ast.Assign) and any(not isinstance(t, (ast.Name, ast.Tuple)) for t in n.targets):
+                return False
+            if isinstance(n, ast.Call):
+                f = n.func
+                if isinstance(f, ast.Attribute):
+                    if f.attr in ("append", "add", "update", "pop", "clear", "extend", "remove", "insert", "setdefault", "discard", "popitem", "write", "put_nowait", "close"):
+                        return False
+                    if isinstance(f.value, ast.Name) and f.value.id in ("self", "cls") or (isinstance(f.value, ast.Call) and isinstance(f.value.func, ast.Name) and f.value.func.id == "super"):
+                        if not self.syntactically_pure(cls, f.attr, seen, depth + 1):
+                            return False
+                elif isinstance(f, ast.Name) and f.id not in ("str", "repr", "len", "hex", "int", "float", "bool", "dict", "list", "tuple", "sorted", "format", "isinstance", "getattr", "hasattr", "type", "bytes", "min", "max", "sum", "any", "all", "enumerate", "zip", "range", "round", "abs", "super"):
+                    return False
+            if isinstance(n, ast.Attribute) and isinstance(n.value, ast.Name) and n.value.id == "self" and isinstance(n.ctx, ast.Load):
+                # a property of self read by the method
+                if cls.find_method(n.attr)[1] is not None and not self.syntactically_pure(cls, n.attr, seen, depth + 1):
+                    return False
+        return True
 
     def note_log_args(self, node, fr):
         for a in list(node.args) + [k.value for k in node.keywords]:
@@ -1301,6 +1368,8 @@ class Interp:
                 return v
             return self.B.container_attr(self, base, o, name)
         if isinstance(base, ClassInfo):
+            if name in ("__name__", "__qualname__"):
+                return VStr(c=base.name)
             if base.builtin:
                 return self.B.builtin_class_attr(self, base, name)
             v = self.class_attr(base, name)
@@ -1574,6 +1643,14 @@ class Interp:
             raise Unsupported(f"iteration over symbolic {o.kind} needs a loop contract")
         if isinstance(v, VBytes):
             n = v.conc_len()
+            if n is None:
+                # a short slice of symbolic length (x[a:a+7] of a record): complete case split over its possible lengths
+                ln = v.length()
+                if not isinstance(ln, int) and self.path.known(ln <= 16):
+                    for k in range(0, 17):
+                        if self.path.branch(ln == k, "short_len"):
+                            return [byte_val(v.at(j)) for j in range(k)]
+                    raise PathEnd("infeasible")
             if n is None or n > 4096:
                 raise Unsupported("iteration over bytes of symbolic length needs a loop contract")
             return [byte_val(v.at(k)) for k in range(n)]
@@ -1818,6 +1895,13 @@ class Interp:
     def setitem(self, target: ast.Subscript, val, fr):
         base = self.ev(target.value, fr)
         base = self.resolve(base)
+        from .values import VAny as _VAny
+        if isinstance(base, _VAny):
+            # state with an unknown history stays unknown: the store is not tracked (recorded as an assumption by any_child)
+            if not isinstance(target.slice, ast.Slice):
+                self.ev(target.slice, fr)
+            self.any_child(base, "setitem")
+            return
         if isinstance(target.slice, ast.Slice):
             raise Unsupported("slice assignment")
         idx = self.resolve(self.ev(target.slice, fr))
